@@ -65,6 +65,29 @@ def run_one(m, prop):
         shutil.rmtree(tmp, ignore_errors=True)
 
 
+def run_refactor(path, prop):
+    """A behaviour-preserving refactoring (refactors/*.diff): the check must stay silent on it."""
+    tmp = tempfile.mkdtemp(prefix="mverif-")
+    rid = "refactor/" + os.path.basename(path)[:-5]
+    try:
+        repo = os.path.join(tmp, "repo")
+        subprocess.run(["rsync", "-a", "--exclude", ".git", REPO + "/", repo + "/"], check=True)
+        p = subprocess.run(["patch", "-p1", "-s", "-f", "-i", path], cwd=repo, capture_output=True, text=True)
+        if p.returncode != 0:
+            return rid, "skipped", "patch does not apply to this tree"
+        vd = os.path.join(tmp, "verif")
+        os.makedirs(vd)
+        shutil.copy(os.path.join(HERE, "known_findings.json"), vd)
+        p = subprocess.run([BIN, "-property", prop, "-tier", "quick", "-repo", repo, "-verif", vd], capture_output=True, text=True)
+        out = p.stdout + p.stderr
+        if p.returncode != 0 or "VIOLATION" in out:
+            first = [l for l in out.splitlines() if l.startswith("  ")][:1]
+            return rid, "FALSE-ALARM", "exit=%d %s" % (p.returncode, first[0][:200] if first else "")
+        return rid, "silent", ""
+    finally:
+        shutil.rmtree(tmp, ignore_errors=True)
+
+
 def main():
     prop = sys.argv[1]
     muts = load_mutants(prop)
@@ -74,21 +97,37 @@ def main():
     workers = min(8, len(muts))
     with ThreadPoolExecutor(max_workers=workers) as ex:
         results = list(ex.map(lambda m: run_one(m, prop), muts))
-    missed = [r for r in results if r[1] == "MISSED"]
+    rres = []
+    refs = sorted(glob.glob(os.path.join(HERE, "refactors", "*.diff")))
+    if refs and not os.environ.get("VERIF_SKIP_REFACTORS"):
+        with ThreadPoolExecutor(max_workers=8) as ex:
+            rres = list(ex.map(lambda f: run_refactor(f, prop), refs))
+        alarms = [r for r in rres if r[1] == "FALSE-ALARM"]
+        print("selftest %s: %d behaviour-preserving refactorings: %d silent, %d skipped, %d false alarms" % (
+            prop, len(rres), sum(1 for r in rres if r[1] == "silent"), sum(1 for r in rres if r[1] == "skipped"), len(alarms)))
+        for r in alarms:
+            print("selftest %s: %-55s %s %s" % (prop, r[0], r[1], r[2]))
+        results += [r for r in rres if r[1] != "silent"]
+    missed = [r for r in results if r[1] in ("MISSED", "FALSE-ALARM")]
     for r in results:
-        print("selftest %s: %-55s %s %s" % (prop, r[0], r[1], r[2]))
+        if not r[0].startswith("refactor/"):
+            print("selftest %s: %-55s %s %s" % (prop, r[0], r[1], r[2]))
     # append to the evidence file written by the main run
     evp = os.path.join(HERE, "evidence", prop + ".json")
     try:
         ev = json.load(open(evp))
-        ev["coverage"]["selftest"] = {"mutants": len(results), "detected": sum(1 for r in results if r[1] == "detected"),
-                                      "skipped": sum(1 for r in results if r[1] == "skipped"),
-                                      "results": [{"id": r[0], "status": r[1], "detail": r[2]} for r in results]}
+        mres = [r for r in results if not r[0].startswith("refactor/")]
+        ev["coverage"]["selftest"] = {"mutants": len(mres), "detected": sum(1 for r in mres if r[1] == "detected"),
+                                      "skipped": sum(1 for r in mres if r[1] == "skipped"),
+                                      "results": [{"id": r[0], "status": r[1], "detail": r[2]} for r in mres],
+                                      "refactorings": {"total": len(rres), "silent": sum(1 for r in rres if r[1] == "silent"),
+                                                       "skipped": sum(1 for r in rres if r[1] == "skipped"),
+                                                       "false_alarms": [r[0] for r in rres if r[1] == "FALSE-ALARM"]}}
         json.dump(ev, open(evp, "w"), indent=1)
     except Exception as e:  # evidence missing is the main run's problem
         print("selftest: cannot extend evidence: %s" % e, file=sys.stderr)
     if missed:
-        print("selftest %s: CHECKER REGRESSION - %d mutant(s) not detected" % (prop, len(missed)), file=sys.stderr)
+        print("selftest %s: CHECKER REGRESSION - %d mutant(s) not detected or refactoring(s) flagged" % (prop, len(missed)), file=sys.stderr)
         return 2
     return 0
 
